@@ -194,6 +194,26 @@ def check(elements, pos, cell, ctx, st, radii, nonmetals, what, metamorphic_rng=
         g_moved = set(tuple(sorted(int(v) for v in r)) for r in np.asarray(detect(a)).reshape(-1, 2))
         if g_again != gs or g_moved != gs:
             ctx.fail("%s: bonding of one and the same object changes between calls (repeat: %s, after moving it in place: %s)" % (what, sorted(g_again ^ gs)[:3], sorted(g_moved ^ gs)[:3]), witness=w)
+        # ... and after two atoms of different elements exchanged their types where they are (an in-place edit of the type array:
+        # the radii, and the non-metal allowance, go with the atoms' elements as they are now)
+        els_now = list(elements)
+        diff = [(i, j) for i in range(len(els_now)) for j in range(i + 1, len(els_now)) if els_now[i] != els_now[j]]
+        if diff and isinstance(a.atom_types, np.ndarray):
+            i, j = diff[int(rng.integers(len(diff)))]
+            ti, tj = int(a.atom_types[i]), int(a.atom_types[j])
+            a.atom_types[i], a.atom_types[j] = tj, ti
+            els_now[i], els_now[j] = els_now[j], els_now[i]
+            pos_now = np.asarray(a.positions, float)
+            exp_t, _, margin_t = ref_bonds(els_now, pos_now, cell, radii, nonmetals)
+            if margin_t > 1e-6:
+                g_t = set(tuple(sorted(int(v) for v in r)) for r in np.asarray(detect(a)).reshape(-1, 2))
+                st.count("detections_after_two_atoms_exchanged_their_types_in_place")
+                if exp_t != gs:
+                    st.count("detections_after_an_inplace_type_exchange_with_other_bonding")
+                if g_t != exp_t:
+                    ctx.fail("%s: after atoms %d and %d exchanged their types in place, detected %s, rule gives %s (spurious %s, missing %s)" %
+                             (what, i, j, sorted(g_t)[:6], sorted(exp_t)[:6], sorted(g_t - exp_t)[:4], sorted(exp_t - g_t)[:4]), witness=w)
+            a.atom_types[i], a.atom_types[j] = ti, tj
         # ... and after the object's cell was edited where it is (one cell vector lengthened: bonds through that face go)
         if isinstance(a.cell, np.ndarray):
             k = int(rng.integers(3))
@@ -476,6 +496,8 @@ def requirements(stats, tier):
         need.append("pairs in cells whose edges exceed two bonds and whose face spacing does not: %d" % stats.get("pairs_in_cells_whose_edges_exceed_two_bonds_and_whose_face_spacing_does_not"))
     if stats.get("bonds_whose_nearest_image_is_not_the_fractionally_nearest_one") < (10 if tier == "quick" else 1000):
         need.append("bonds whose nearest image is not the fractionally nearest one: %d" % stats.get("bonds_whose_nearest_image_is_not_the_fractionally_nearest_one"))
+    if stats.get("detections_after_an_inplace_type_exchange_with_other_bonding") < (10 if tier == "quick" else 1000):
+        need.append("detections after an in-place exchange of two atoms' types, with another expected bonding than before: %d" % stats.get("detections_after_an_inplace_type_exchange_with_other_bonding"))
     if stats.get("structures_with_two_atoms_at_distance_zero") < 10:
         need.append("structures with two atoms at distance exactly zero: %d" % stats.get("structures_with_two_atoms_at_distance_zero"))
     if stats.get("integer_cells") < 10:
